@@ -453,6 +453,12 @@ pub fn gen_fmt(rng: &mut Rng, n: usize, which: &str, out: &mut Vec<String>) {
                     let (a, _, _) = gen_prog::layout(rng, &toks, &lo2);
                     let (b, _, _) = gen_prog::layout(rng, &toks, &Layout { comment_pct: 0, comment_gaps: None, compact: false });
                     out.push(format!("PROPFMTCANON {} {} {}", hex_str(&a), hex_str(&b), opts));
+                    // whitespace-only variants of the text and of its canonical form
+                    if i % 2 == 0 {
+                        out.push(format!("PROPFMTWS {} {}", h, opts));
+                    } else if let Some(c) = formatted(&text, sp, ts as u32) {
+                        out.push(format!("PROPFMTWS {} {}", hex_str(&c), opts));
+                    }
                 }
             }
         }
@@ -485,8 +491,35 @@ pub fn run_fmt_props(op: &str, args: &[&str]) -> Option<String> {
                 _ => "bad:PANIC".into(),
             })
         }
+        ("PROPFMTWS", [t, sp, ts]) => {
+            // whitespace-only variants (line terminators, final newline, trailing blanks) format to the same text
+            let sp = *sp == "1";
+            let ts = num(ts)?;
+            let text = unhex_str(t)?;
+            let base = match formatted(&text, sp, ts) {
+                Some(x) => x,
+                None => return Some("bad:PANIC".into()),
+            };
+            for (name, v) in ws_variants(&text) {
+                match formatted(&v, sp, ts) {
+                    Some(x) if x == base => {}
+                    Some(_) => return Some(format!("bad:variant-{}-formats-differently", name)),
+                    None => return Some("bad:PANIC".into()),
+                }
+            }
+            Some("ok".into())
+        }
         _ => None,
     }
+}
+
+pub fn ws_variants(text: &str) -> Vec<(&'static str, String)> {
+    vec![
+        ("crlf", text.replace('\n', "\r\n")),
+        ("nofinalnl", text.trim_end_matches('\n').to_string()),
+        ("extranl", format!("{}\n\n", text)),
+        ("trailsp", text.replace('\n', " \n")),
+    ]
 }
 
 // ---------------------------------------------------------------------------------------
